@@ -14,7 +14,22 @@
 use std::collections::VecDeque;
 use std::ops::Range;
 use std::panic::{catch_unwind, resume_unwind, AssertUnwindSafe};
-use std::sync::Mutex as StdMutex;
+/// All simulated tasks of a run share one OS thread, so these mutexes can never be legitimately
+/// contended; contention means a guard was held across a scheduling point (a shim bug) and would
+/// otherwise show up as an OS-level self-deadlock.
+pub(crate) struct StdMutex<T>(std::sync::Mutex<T>);
+impl<T> StdMutex<T> {
+    pub fn new(t: T) -> Self { StdMutex(std::sync::Mutex::new(t)) }
+    #[track_caller]
+    pub fn lock(&self) -> std::sync::LockResult<std::sync::MutexGuard<'_, T>> {
+        match self.0.try_lock() {
+            Ok(g) => Ok(g),
+            Err(std::sync::TryLockError::Poisoned(p)) => Err(p),
+            Err(std::sync::TryLockError::WouldBlock) => panic!("rayon-shim: internal mutex held across a scheduling point"),
+        }
+    }
+    pub fn into_inner(self) -> std::sync::LockResult<T> { self.0.into_inner() }
+}
 
 use yui_verif_rt as rt;
 
@@ -24,17 +39,197 @@ pub mod prelude {
     };
 }
 
+// ---------------------------------------------------------------------------------------------
+// the simulated thread pool
+// ---------------------------------------------------------------------------------------------
+//
+// Like rayon, the shim owns ONE pool of worker threads per process (here: per simulated run);
+// the workers are simulated tasks that live until the run ends, so a worker keeps its identity
+// across parallel calls.  A parallel call posts a batch of items; idle workers pull items from
+// posted batches (pick-up = scheduling point).  A call issued by an outside thread blocks until
+// its batch is complete; a call issued from inside a worker (nested parallelism) makes that
+// worker execute items of its own batch while it waits, as a rayon worker does.
+
+use std::any::Any;
+use std::cell::RefCell;
+use std::collections::{BTreeMap, BTreeSet};
+
+type Job = *const (dyn Fn(usize) + Sync);
+
+struct Batch {
+    id: u64,
+    job: Job,
+    pending: VecDeque<usize>,
+    unfinished: usize,
+    limit: usize,
+    active: usize,
+    failed: Option<Box<dyn Any + Send>>,
+    owner: shuttle::thread::Thread,
+    owner_task: u32,
+    back: bool,
+    one_item: bool,
+    all_on_one: bool,
+    taken_by: BTreeMap<u32, usize>,
+}
+
+impl Batch {
+    fn may_take(&self, me: u32, pool_size: usize) -> bool {
+        if self.pending.is_empty() || self.active >= self.limit {
+            return false;
+        }
+        if self.all_on_one && !self.taken_by.is_empty() && !self.taken_by.contains_key(&me) {
+            return false;
+        }
+        if self.one_item {
+            // every item on a different worker as long as fresh workers exist
+            let mine = self.taken_by.get(&me).copied().unwrap_or(0);
+            let min_round = if self.taken_by.len() < pool_size.min(self.limit) { 0 } else { self.taken_by.values().copied().min().unwrap_or(0) };
+            if mine > min_round {
+                return false;
+            }
+        }
+        true
+    }
+}
+
+struct Pool {
+    size: usize,
+    workers: BTreeSet<u32>,
+    threads: Vec<shuttle::thread::Thread>,
+    handles: Vec<shuttle::thread::JoinHandle<()>>,
+    idle: Vec<shuttle::thread::Thread>,
+    batches: Vec<Batch>,
+    shutdown: bool,
+    next_id: u64,
+}
+
 thread_local! {
-    // nesting depth of parallel calls *per simulated task* is tracked through a task-indexed map
-    static DEPTH: std::cell::RefCell<std::collections::BTreeMap<u32, u32>> =
-        const { std::cell::RefCell::new(std::collections::BTreeMap::new()) };
+    static POOL: RefCell<Option<Pool>> = const { RefCell::new(None) };
 }
 
 fn cur_task() -> Option<u32> {
     rt::current_task()
 }
 
-/// Run `job(idx)` for idx in 0..n on simulated workers.
+fn trace(msg: impl FnOnce() -> String) {
+    if std::env::var_os("VERIF_SHIM_TRACE").is_some() {
+        eprintln!("[shim t{:?}] {}", cur_task(), msg());
+    }
+}
+
+fn with_pool<T>(f: impl FnOnce(&mut Pool) -> T) -> T {
+    POOL.with(|p| f(p.borrow_mut().as_mut().expect("pool exists")))
+}
+
+/// one unit of work handed to a worker
+struct Work {
+    batch: u64,
+    item: usize,
+    job: Job,
+}
+
+fn take_work(me: u32, only_batch: Option<u64>) -> Option<Work> {
+    with_pool(|p| {
+        let size = p.size;
+        // newest batch first (a rayon worker prefers the most recently pushed job)
+        let n = p.batches.len();
+        let mut order: Vec<usize> = (0..n).rev().collect();
+        if only_batch.is_none() && n > 1 && rt::shim_below(3) == 0 {
+            let k = rt::shim_below(n as u64) as usize;
+            order.swap(0, k);
+        }
+        for bi in order {
+            let b = &mut p.batches[bi];
+            if let Some(ob) = only_batch {
+                if b.id != ob { continue; }
+            }
+            if !b.may_take(me, size) { continue; }
+            let item = if b.back { b.pending.pop_back() } else { b.pending.pop_front() }.unwrap();
+            b.active += 1;
+            *b.taken_by.entry(me).or_insert(0) += 1;
+            trace(|| format!("take batch {} item {item} (pending {}, unfinished {})", b.id, b.pending.len(), b.unfinished));
+            return Some(Work { batch: b.id, item, job: b.job });
+        }
+        None
+    })
+}
+
+fn run_work(me: u32, w: Work) {
+    rt::note_pickup(me, w.item);
+    let job: &(dyn Fn(usize) + Sync) = unsafe { &*w.job };
+    let res = catch_unwind(AssertUnwindSafe(|| {
+        rt::fault_point("par.task_start");
+        job(w.item)
+    }));
+    if res.is_err() {
+        // the unwinding is over: waiters of locks released during it may now be woken
+        rt::sync::flush_wakeups();
+    }
+    let wake = with_pool(|p| {
+        let b = p.batches.iter_mut().find(|b| b.id == w.batch).expect("batch alive while items are active");
+        b.active -= 1;
+        b.unfinished -= 1;
+        if let Err(e) = res {
+            if b.failed.is_none() { b.failed = Some(e); }
+            // like rayon, stop handing out the remaining items of a failed call
+            b.unfinished -= b.pending.len();
+            b.pending.clear();
+        }
+        let wake_owner = (b.unfinished == 0 && b.owner_task != me).then(|| b.owner.clone());
+        // a finished item can make the batch takeable again for workers that had to stand back
+        // (concurrency limit, one-item-per-worker fairness): let the idle ones look again
+        let idle = if b.pending.is_empty() { vec![] } else { std::mem::take(&mut p.idle) };
+        (wake_owner, idle)
+    });
+    let (wake, idle) = wake;
+    for t in idle {
+        t.unpark();
+    }
+    trace(|| format!("done batch {} item {} wake_owner={}", w.batch, w.item, wake.is_some()));
+    if let Some(t) = wake {
+        t.unpark();
+    }
+}
+
+fn worker_main() {
+    let me = cur_task().unwrap();
+    with_pool(|p| p.workers.insert(me));
+    loop {
+        // pick-up is a scheduling point: which worker gets which item is the scheduler's call
+        shuttle::thread::sleep(std::time::Duration::ZERO);
+        match take_work(me, None) {
+            Some(w) => run_work(me, w),
+            None => {
+                if with_pool(|p| p.shutdown) { break; }
+                with_pool(|p| p.idle.push(shuttle::thread::current()));
+                trace(|| "idle -> park".to_string());
+                shuttle::thread::park();
+                trace(|| "woke".to_string());
+            }
+        }
+    }
+}
+
+fn ensure_pool(size: usize) {
+    let exists = POOL.with(|p| p.borrow().is_some());
+    if exists { return; }
+    POOL.with(|p| *p.borrow_mut() = Some(Pool { size, workers: BTreeSet::new(), threads: vec![], handles: vec![], idle: vec![], batches: vec![], shutdown: false, next_id: 0 }));
+    for _ in 0..size {
+        let h = shuttle::thread::spawn(worker_main);
+        with_pool(|p| { p.threads.push(h.thread().clone()); p.handles.push(h); });
+    }
+}
+
+/// Ends the simulated pool; must be called (by the harness) inside the simulation when the body is
+/// done, otherwise the parked workers look like a deadlock to the engine.
+pub fn shim_shutdown_pool() {
+    let Some((threads, handles)) = POOL.with(|p| p.borrow_mut().as_mut().map(|p| { p.shutdown = true; (p.threads.clone(), std::mem::take(&mut p.handles)) })) else { return };
+    for t in threads { t.unpark(); }
+    for h in handles { let _ = h.join(); }
+    POOL.with(|p| *p.borrow_mut() = None);
+}
+
+/// Run `job(idx)` for idx in 0..n on the simulated pool.
 fn exec(n: usize, job: &(dyn Fn(usize) + Sync)) {
     if n == 0 {
         return;
@@ -45,88 +240,72 @@ fn exec(n: usize, job: &(dyn Fn(usize) + Sync)) {
         }
         return;
     };
+    let pool_size = cfg.workers.clamp(1, 16);
+    ensure_pool(pool_size);
+    let inside = with_pool(|p| p.workers.contains(&me));
+    let limit = if inside { cfg.nested_workers.clamp(1, 16) } else { pool_size };
+    rt::note_par_call(n, limit.min(n));
 
-    let depth = DEPTH.with(|d| d.borrow().get(&me).copied().unwrap_or(0));
-    let mut k = if depth == 0 { cfg.workers } else { cfg.nested_workers };
-    k = k.clamp(1, 16);
-    let mut spawn = k.min(n);
-    if cfg.one_item_per_worker {
-        // every item gets a fresh worker identity (capped, so that shuttle's task table stays small)
-        spawn = n.min(64);
-    }
-    rt::note_par_call(n, spawn);
-
-    let mut order: Vec<usize> = (0..n).collect();
+    let mut order: VecDeque<usize> = (0..n).collect();
     if cfg.pickup == rt::Pickup::Random {
-        // a random pick from the queue == a front pick from a shuffled queue
+        let v = order.make_contiguous();
         for i in (1..n).rev() {
             let j = rt::shim_below(i as u64 + 1) as usize;
-            order.swap(i, j);
+            v.swap(i, j);
         }
     }
-    let queue = StdMutex::new(VecDeque::from(order));
-    let failed: StdMutex<Option<Box<dyn std::any::Any + Send>>> = StdMutex::new(None);
-    let all_on_one = cfg.all_on_one && !cfg.one_item_per_worker;
-    let one_item = cfg.one_item_per_worker && n <= 64;
-    let back = cfg.pickup == rt::Pickup::Back;
-
-    let worker = |widx: usize| {
-        let me = cur_task().unwrap();
-        DEPTH.with(|d| d.borrow_mut().insert(me, depth + 1));
-        loop {
-            // pick-up is a scheduling point: which worker gets which item is the scheduler's call
-            shuttle::thread::yield_now();
-            if all_on_one && widx != 0 {
-                break;
-            }
-            if failed.lock().unwrap().is_some() {
-                break;
-            }
-            let next = {
-                let mut q = queue.lock().unwrap();
-                if back { q.pop_back() } else { q.pop_front() }
-            };
-            let Some(i) = next else { break };
-            rt::note_pickup(me, i);
-            rt::fault_point("par.task_start");
-            if let Err(e) = catch_unwind(AssertUnwindSafe(|| job(i))) {
-                // the unwinding is over: waiters of locks released during it may now be woken
-                rt::sync::flush_wakeups();
-                let mut f = failed.lock().unwrap();
-                if f.is_none() {
-                    *f = Some(e);
-                }
-                break;
-            }
-            if one_item {
-                break;
-            }
-        }
-        DEPTH.with(|d| d.borrow_mut().remove(&me));
-    };
-
-    shuttle::thread::scope(|s| {
-        for w in 0..spawn {
-            let worker = &worker;
-            let failed = &failed;
-            s.spawn(move || {
-                // an injected fault at task start is itself caught like a job panic
-                if let Err(e) = catch_unwind(AssertUnwindSafe(|| worker(w))) {
-                    rt::sync::flush_wakeups();
-                    let mut f = failed.lock().unwrap();
-                    if f.is_none() {
-                        *f = Some(e);
-                    }
-                }
-            });
-        }
+    let job_ptr: Job = unsafe { std::mem::transmute::<&(dyn Fn(usize) + Sync), Job>(job) };
+    let (id, idle) = with_pool(|p| {
+        let id = p.next_id;
+        p.next_id += 1;
+        p.batches.push(Batch {
+            id,
+            job: job_ptr,
+            pending: order,
+            unfinished: n,
+            limit,
+            active: 0,
+            failed: None,
+            owner: shuttle::thread::current(),
+            owner_task: me,
+            back: cfg.pickup == rt::Pickup::Back,
+            // the distribution buggifies apply to top-level calls only: the owner of a nested call
+            // must always be able to drain its own batch, or two owners could wait for each other
+            one_item: cfg.one_item_per_worker && !inside,
+            all_on_one: cfg.all_on_one && !cfg.one_item_per_worker && !inside,
+            taken_by: BTreeMap::new(),
+        });
+        (id, std::mem::take(&mut p.idle))
     });
-
-    if let Some(e) = failed.into_inner().unwrap() {
+    trace(|| format!("posted batch {id} n={n} limit={limit} inside={inside} idle={}", idle.len()));
+    for t in idle {
+        t.unpark();
+    }
+    loop {
+        if inside {
+            // a worker waiting for its own nested call executes items of that call
+            shuttle::thread::sleep(std::time::Duration::ZERO);
+            if let Some(w) = take_work(me, Some(id)) {
+                run_work(me, w);
+                continue;
+            }
+        }
+        if with_pool(|p| p.batches.iter().find(|b| b.id == id).unwrap().unfinished == 0) {
+            break;
+        }
+        trace(|| format!("owner of batch {id} parks"));
+        shuttle::thread::park();
+        trace(|| format!("owner of batch {id} woke"));
+    }
+    let failed = with_pool(|p| {
+        let k = p.batches.iter().position(|b| b.id == id).unwrap();
+        let b = p.batches.remove(k);
+        debug_assert!(b.active == 0 && b.pending.is_empty());
+        b.failed
+    });
+    if let Some(e) = failed {
         resume_unwind(e);
     }
-    // items left in the queue can only remain after a failure
-    debug_assert!(queue.lock().unwrap().is_empty());
 }
 
 pub mod iter {
